@@ -297,6 +297,107 @@ func TestC11(t *testing.T) {
 			c.Sample(map[string]interface{}{"tree_shape": tr.Shape(), "steps": desc})
 		}
 	})
+	// directed: a side branch that is taller than the main chain but has no justified checkpoint, a clean
+	// restart, then votes that justify the side branch's checkpoint: the fork choice moves to the tip of the
+	// side branch, also for the blocks above its last checkpoint that the restarted engine had to rebuild
+	r.Cases("taller-side-branch-restart-vote", r.N(12, 400), func(c *ev.Case) {
+		rng := c.Rand
+		tr := net.NewTree(g)
+		E := int(net.P.Epoch)
+		build := func(p *chainkit.Blk, n, skip int) []*chainkit.Blk {
+			var l []*chainkit.Blk
+			for i := 0; i < n; i++ {
+				bo := chainkit.BlockOpt{}
+				if i == 0 {
+					bo.SkipSlots = skip
+				}
+				b, err := tr.Build(p, nil, bo)
+				if err != nil {
+					c.Violation("harness:build", "cannot build", err.Error())
+					return nil
+				}
+				l = append(l, b)
+				p = b
+			}
+			return l
+		}
+		A := build(tr.Root, E+rng.Range(1, 3), 0)
+		B := build(tr.Root, 2*E+rng.Range(1, 3), 1)
+		if A == nil || B == nil {
+			return
+		}
+		nd, err := net.NewNode(fmt.Sprintf("%s/d%d", base, c.Index), g)
+		if err != nil {
+			c.Inconclusive("node: %v", err)
+			return
+		}
+		defer func() { nd.Destroy() }()
+		stored := map[bc.Hash]bool{tr.Root.Hash: true}
+		var trail []string
+		check := func(what string) bool {
+			if !nd.Settle(net, tr, nil) {
+				c.Inconclusive("case %d: engine did not settle after %s", c.Index, what)
+				return false
+			}
+			want, _, info := forkChoice(tr, nd, stored, net.P.Epoch)
+			got := nd.Best()
+			trail = append(trail, fmt.Sprintf("%s => best %s", what, chainkit.HashShort(got)))
+			if want == nil || got != want.Hash {
+				ctx := map[string]interface{}{"trail": trail, "fork_choice": info, "best": chainkit.HashShort(got), "len_A": len(A), "len_B": len(B)}
+				if want != nil {
+					ctx["want"] = fmt.Sprintf("h%d %s", want.Height, chainkit.HashShort(want.Hash))
+				}
+				c.Violation("best!=fork-choice:taller-side-branch:"+what, "the node's best block is not the block the fork-choice rule selects", ctx)
+				return false
+			}
+			for _, b := range tr.All {
+				if in, w := nd.Chain.InMainChain(b.Hash), stored[b.Hash] && b.IsAncestorOf(want); in != w {
+					c.Violation("InMainChain:taller-side-branch:"+what, "InMainChain disagrees with 'is an ancestor of the best block'",
+						map[string]interface{}{"trail": trail, "block": fmt.Sprintf("h%d %s", b.Height, chainkit.HashShort(b.Hash)), "in_main_chain": in})
+					return false
+				}
+			}
+			c.Count("states_checked", 1)
+			return true
+		}
+		deliver := func(bs []*chainkit.Blk, what string) bool {
+			for _, b := range bs {
+				if _, err := nd.Chain.ProcessBlock(chainkit.CloneBlock(b.B)); err != nil {
+					c.Inconclusive("case %d: block refused: %v", c.Index, err)
+					return false
+				}
+				stored[b.Hash] = true
+			}
+			return check(what)
+		}
+		vote := func(src, tgt *chainkit.Blk, what string) bool {
+			for k := 0; k < 3; k++ {
+				nd.Chain.ProcessBlockVerification(net.VoteMsg(k, src.Hash, tgt.Hash))
+			}
+			return check(what)
+		}
+		if !deliver(A, "branch-A") || !vote(tr.Root, A[E-1], "votes-justify-A4") || !deliver(B, "taller-branch-B") {
+			return
+		}
+		if c.Index%3 != 2 { // two thirds with the restart, one third without (control)
+			nd2, rerr := net.Reopen(nd, g)
+			if rerr != nil {
+				c.Violation("restart-failed", "the node does not start from its own store after a clean stop", map[string]interface{}{"error": rerr.Error()})
+				return
+			}
+			nd = nd2
+			c.Count("restarts", 1)
+			if !check("restart") {
+				return
+			}
+		}
+		if !vote(tr.Root, B[2*E-1], "votes-justify-B8") {
+			return
+		}
+		c.Count("taller_side_branch_cases", 1)
+		c.Distinct("taller-side-branch A=%d B=%d restart=%v", len(A), len(B), c.Index%3 != 2)
+	})
+	r.Floor("taller_side_branch_cases", 8)
 	r.Floor("states_checked", 500)
 	r.Floor("reorganisations", 20)
 	r.Floor("reorganisations_caused_by_vote", 3)
